@@ -31,6 +31,8 @@ META = {
 HEADER = """From Coq Require Import List Arith Bool NArith.
 From PL.C29 Require Import ModelClauseDB.
 Import ListNotations.
+Definition n (x : N) : nat := N.to_nat x.
+Arguments n x%N.
 """
 
 K_GROUP = "ad-group-id-collision-across-extend"
@@ -158,7 +160,10 @@ def work(item):
             ops = H.path_ops(path, bids)
             obs = H.clist([H.clayer_obs(H.dump_layer(n.db), n.parent is None) for n in reversed(path)])
             absobs = H.clist(["abs_matches 60 (skipn %d c) %s" % (len(path) - 1 - d, H.cabs_obs(n.db)) for d, n in enumerate(path)])
-            res["cases"].append("let c := run %s %s root0 in chain_matches c %s && forallb (fun b => b) %s"
+            # + (sampled, not a theorem) redirect soundness at depth <= 2: every call node resolves to the
+            #   current definition of its predicate, seen through the child
+            res["cases"].append("let c := run %s %s root0 in chain_matches c %s && forallb (fun b => b) %s "
+                                "&& (if length c <=? 2 then forallb (call_resolves c) (seq 0 (size c)) else true)"
                                 % (gmode, ops, obs, absobs))
     except ValueError as e:
         res["encode_error"] = "%s on %s" % (e, history_text(acts))
@@ -189,7 +194,7 @@ def run(ctx):
     gmode = H.detect_group_mode(vf.REPO)
     ctx.cov["group_rule_in_code"] = gmode
     bids = builtin_ids()
-    nh = ctx.n(150, 3000)
+    nh = ctx.n(80, 500)
     items = [(ctx.rng.randrange(1 << 30), ctx.rng.choice([4, 8, 12, 16]), gmode, bids) for _ in range(nh)]
     if ctx.replay and ctx.replay.get("replay", {}).get("history"):
         acts = [tuple(a) for a in _detuple(ctx.replay["replay"]["history"])]
